@@ -54,6 +54,12 @@ def targeted_exprs():
             ['access', ['add', x, y], S('k')], ['if', x, y, ['add', z, x]], ['add', ['if', x, y, z], x], ['add', x, ['if', x, y, z]]]
     for k in ['k', 'if', 'true', 'principal', 'in', 'like', 'x y', '', 'é', '1a', '_a', 'a_1', '__cedar', 'has', 'is', 'then', 'else', '"', '\\', '\n', '\x00', ' ', 'role ', ' flag', '\ta', 'a\n', 'a\r\n', 'role//x', 'a/*b*/', '/**/a', 'a // c', ' a ', 'a\u00a0', 'a.b', 'a::b', 'a(', 'a-b', 'A1_', '\uff41']:
         out += [['access', C, S(k)], ['has', C, S(k)], ['mkrec', [S(k), a]]]
+    # record VALUES (a policy built through the API or decoded from JSON can hold one; text has only record literals): every key that needs an
+    # escape - the C0 controls Go and Cedar spell differently (BEL, BS, VT, FF), DEL, code points that are not printable (NBSP, soft hyphen, ZWSP, BOM,
+    # a tag character), quotes and backslashes
+    for k in ['k', 'x y', '', '"', '\\', '\n', '\x00', '\x07', '\x08', '\x0b', '\x0c', '\x1b', '\x7f', 'a\u00a0', '\u00ad', '\u200b', '\ufeff', '\U000e0001', '\u2028', 'é', '\U0001f600', 'if', '__cedar']:
+        out += [lit(gen.vrec([(k, gen.vlong(1))])), ['access', lit(gen.vrec([(k, gen.vlong(1)), ('z', gen.vstr(k))])), S(k)],
+                ['eq', C, lit(gen.vrec([(k, gen.vset([gen.vrec([(k, gen.vbool(True))])]))]))]]
     for s_ in ['', 'a', '"', '\\', "'", '\n\r\t', '\x00', '\x1f', '\x7f', '\x80', 'é', ' ', '﻿', '�', '\U0001f600', '*', '\\*', 'a*b', '́', 'ﬁ']:
         out += [lit(gen.vstr(s_)), ['like', lit(gen.vstr('x')), ['pat', S(s_)]], ['like', lit(gen.vstr('x')), ['pat', ['w'], S(s_), ['w']]],
                 lit(gen.vent('User', s_)), ['eq', P, lit(gen.vent('User', s_))]]
